@@ -31,12 +31,13 @@ DIRECTED = ["lyric x", "section x", "x", "lyric", "section", "lyric ", "section 
 def required(tier):
     return ["kind:lyric", "kind:section", "kind:text", "inner_quote_in_lyric_or_section", "keyword_without_blank_is_text",
             "empty_remainder", ">=2_kinds_in_one_chart", "repeated_tick", "concurrent_stage", "ticks_not_in_file_order_within_one_tempo_segment",
-            "long_runs_of_one_kind_then_another", "unclaimed_lines_among_the_events"]
+            "long_runs_of_one_kind_then_another", "unclaimed_lines_among_the_events", "whole_generated_chart"]
 
 
 def shards(tier, seed):
     n = 16 if tier == "quick" else 48
-    return [{"name": f"ev-{i}", "count": 60 if tier == "quick" else 1200} for i in range(n)]
+    out = [{"name": f"ev-{i}", "count": 60 if tier == "quick" else 1200} for i in range(n)]
+    return out + [{"name": f"charts-{i}", "kind": "charts", "count": 50 if tier == "quick" else 1200} for i in range(2 if tier == "quick" else 8)]
 
 
 def make_case(rng, i):
@@ -87,6 +88,9 @@ def make_case(rng, i):
 
 def run_shard(shard, rec, tier, seed):
     harness.setup()
+    if shard.get("kind") == "charts":
+        mcheck.whole_charts(rec, ("C09",), seed, ID, shard["name"], shard["count"], n_globals=None)
+        return harness.finish(rec)
     keep = mcheck.Keep()
     for i in range(shard["count"]):
         rng = harness.rng_for(seed, ID, shard["name"], i)
